@@ -68,6 +68,7 @@ def build(tier, seed):
              Task(f"{PROP}.S.own_tables", PROP, "FortranCodeUnit.correlate", lambda: __import__("contracts.useassoc", fromlist=["x"]).own_tables_obligations(PROP, lambda: __import__("bounded.c07", fromlist=["x"]).search())),
              Task(f"{PROP}.S.tables_only_grow", PROP, "ford.sourceform", lambda: __import__("contracts.useassoc", fromlist=["x"]).tables_only_grow(PROP, replay=lambda: __import__("bounded.c07", fromlist=["x"]).search())),
              Task(f"{PROP}.S.find_used_modules.lookup", PROP, "find_used_modules", lambda: __import__("contracts.external", fromlist=["x"]).find_used_modules_lookup(PROP, lambda: __import__("bounded.c06", fromlist=["x"]).search())),
+             Task(f"{PROP}.B.use_patterns", PROP, "USE_RE/ONLY_RE/RENAME_RE", lambda: __import__("contracts.rx_use", fromlist=["x"]).obligations(PROP)),
              Task(f"{PROP}.S.extension_order", PROP, "type extension order", lambda: scoping.extension_order(PROP)), bounded_task()]
     meta = {
         "trusted_base": TRUSTED_BASE,
